@@ -1,11 +1,13 @@
 import Driver.Ops
 import Driver.VMDrv
+import Driver.Invoke
 open Driver
 
 def dispatch (line : String) : String :=
   match line.splitOn "\t" with
   | "ops" :: args => handleOps args
   | "vm" :: args => handleVM args
+  | "inv" :: args => handleInv args
   | _ => "bad-op"
 
 partial def loop (h : IO.FS.Stream) (out : IO.FS.Stream) : IO Unit := do
